@@ -12,7 +12,7 @@ from vf import pool_checks
 PROP = "C04"
 LEVEL = "fault_enumeration"
 RULE = ("base cases: C03-style call histories (1-4 calls, FunctorPool and FactoryFunctorPool with quota 1-5), "
-        "until_all_ready() before the first call and between calls; fault positions enumerated over the base index: "
+        "until_all_ready() before the first call and between calls; slow begin() in every second worker and slow end() in workers that processed items (so that an early until_all_ready or an unjoined replaced worker is observable); fault positions enumerated over the base index: "
         "none / begin() of worker k raising (k = 0..workers-1 and a replacement worker) / functor raising at the "
         "first, a middle and the last item of a call. Fault-free cases also get the full delay sweep (one 120 ms delay "
         "per executed statement and occurrence, random combinations). Oracle over the log: per worker exactly one "
@@ -35,6 +35,8 @@ def gen_base(rng, tier, index):
     from vf.checks import c03
     case = c03.gen_base(rng, tier, index)
     case["calls"] = case["calls"][:rng.randint(1, 3)]
+    case["end_delay"] = rng.choice([0, 0.05, 0.15, 0.3])       # slow end(): an unjoined (replaced) worker is still in it
+    case["begin_delay"] = rng.choice([0, 0, 0.05, 0.2])        # slow begin() in every second worker
     fault_kind = index % 5      # 0,1: none   2: begin   3: functor   4: none + ready between calls
     case["ready_first"] = fault_kind in (0, 4) or (fault_kind == 1 and rng.random() < 0.5)
     if fault_kind == 4:
